@@ -45,7 +45,7 @@ GOENV = {
 # --------------------------------------------------------------------------- check table
 # run: test = -test.run regexp; n = rapid.checks per tier (total over shards); shards per tier;
 #      steps = rapid.steps; variant = build variant; timeout in seconds per shard.
-def R(test, quick, thorough, shards=(4, 16), steps=None, timeout=(600, 3000), extra=None, norapid=False, env=None, fuzz=None, tiers=("quick", "thorough")):
+def R(test, quick, thorough, shards=(8, 16), steps=None, timeout=(600, 3000), extra=None, norapid=False, env=None, fuzz=None, tiers=("quick", "thorough")):
     """fuzz = seconds of native 'go test -fuzz' (coverage guided, all cores); such an entry only runs in the tiers listed."""
     return dict(test=test, n=dict(quick=quick, thorough=thorough), shards=dict(quick=shards[0], thorough=shards[1]),
                 steps=steps, timeout=dict(quick=timeout[0], thorough=timeout[1]), extra=extra or [], norapid=norapid, env=env or {}, fuzz=fuzz, tiers=tiers)
@@ -74,7 +74,7 @@ check("C01", "served content hashes to its digest", "exploration",
       "A second state machine drives the upload object of both stores directly (Write/Verify/ChangeAlgorithm in any order, then Close or Cancel): the name a blob is committed under must be the digest of all bytes written.",
       "Trusted: crypto/sha256, crypto/sha512 of the Go standard library as the reference hash; in-process transport (httptest) instead of a socket.",
       "DESIGN.md §3 C01",
-      [R("^TestC01$", 3000, 120000, steps=25), R("^TestC01Store$", 8000, 400000, steps=20)])
+      [R("^TestC01$", 6000, 120000, steps=25), R("^TestC01Store$", 16000, 400000, steps=20)])
 
 check("C02", "acknowledged pushes read back identically", "exploration",
       "rapid state machine vs reference model (bytes, length, digest, media type, range slices) over push/delete/collect/restart histories",
@@ -83,7 +83,7 @@ check("C02", "acknowledged pushes read back identically", "exploration",
       "Trusted: the naive map model; collections run under a retain-everything policy here (policy-dependent retention is C05's oracle); by-digest visibility of manifests "
       "affected by open finding C02/orphaned-child is not asserted (counted in evidence).",
       "DESIGN.md §3 C02",
-      [R("^TestC02$", 2000, 60000, steps=40)])
+      [R("^TestC02$", 4000, 60000, steps=40)])
 
 check("C03", "tags are a last-writer-wins map; listing and paging exact", "exploration",
       "rapid state machine vs model map tag->digest; Link chains followed to the end; n/last boundary values",
@@ -91,7 +91,7 @@ check("C03", "tags are a last-writer-wins map; listing and paging exact", "explo
       "listing, every tag and every digest is compared with the model; listings with every kind of n/last value are followed along their Link chain.",
       "Trusted: the model map; byte-order comparison of Go strings as 'lexical order'.",
       "DESIGN.md §3 C03",
-      [R("^TestC03$", 2000, 80000, steps=40)])
+      [R("^TestC03$", 4000, 80000, steps=40)])
 
 check("C04", "only complete, well-formed manifests accepted; refusals change nothing", "exploration",
       "rapid generator of valid manifests + structural/byte mutations; oracle = independent acceptance predicate + before/after snapshot equality (API battery + file tree)",
@@ -101,7 +101,7 @@ check("C04", "only complete, well-formed manifests accepted; refusals change not
       "Trusted: the acceptance predicate c04Predict (narrow reading of 'consistent with the body': header vs non-empty mediaType field); JSON null bodies and the "
       "detection path (no Content-Type) are only checked in the 201 => valid direction.",
       "DESIGN.md §3 C04",
-      [R("^TestC04$", 1500, 60000, steps=30)])
+      [R("^TestC04$", 3000, 60000, steps=30)])
 
 check("C07", "referrers responses list exactly the manifests with that subject", "exploration",
       "rapid state machine vs model set {m present : subject(m)=S}; field-exact descriptors; filter header; Link chains; page limits; restart",
@@ -109,7 +109,7 @@ check("C07", "referrers responses list exactly the manifests with that subject",
       "limits from one descriptor to unlimited; every listing (plain, filtered, repeated so that the page cache answers) is followed along its Link chain and compared field by field.",
       "Trusted: the model; page-size arithmetic re-computed with encoding/json over the same field set. Collections run under a retain-everything policy (GC effects on listings are C05/C06).",
       "DESIGN.md §3 C07",
-      [R("^TestC07$", 4000, 150000, steps=30)])
+      [R("^TestC07$", 12000, 150000, steps=30)])
 
 check("C16", "repositories isolated; storage access stays inside the root", "exploration",
       "rapid state machine on a vfs-instrumented build: per-repository models + file-system path log + sentinel tree outside the root",
@@ -119,7 +119,7 @@ check("C16", "repositories isolated; storage access stays inside the root", "exp
       "Trusted: the check-time rewrite of os.* calls in internal/store to the logging shim (the driver refuses to run if an os.* call remains un-routed); an independent router "
       "(path.Clean + OCI name grammar) decides which repository a request addresses.",
       "DESIGN.md §3 C16",
-      [R("^TestC16$", 1200, 40000, steps=30)], variant="vfs")
+      [R("^TestC16$", 2400, 40000, steps=30)], variant="vfs")
 
 check("C10", "the directory is a valid OCI layout equal to the API state", "exploration",
       "rapid state machine; oracle = OCI-layout validator after every step + index.json/API/model equality + dir-vs-mem, restart and mem-over-dir differentials",
@@ -129,7 +129,7 @@ check("C10", "the directory is a valid OCI layout equal to the API state", "expl
       "Trusted: the validator in harness/layout.go (written from the image-layout spec wording quoted by the property); by-digest visibility of manifests touched by open finding "
       "orphaned-child (finding 12) is excluded from the differentials and counted.",
       "DESIGN.md §3 C10",
-      [R("^TestC10$", 2400, 60000, shards=(8, 16), steps=30)])
+      [R("^TestC10$", 3600, 60000, shards=(8, 16), steps=30)])
 
 check("C08", "upload sessions sequential, isolated, no residue", "exploration",
       "rapid state machine inside a testing/synctest bubble (virtual time, true quiescence) vs session model; residue scan of _uploads",
@@ -139,7 +139,7 @@ check("C08", "upload sessions sequential, isolated, no residue", "exploration",
       "Trusted: testing/synctest of go1.26.8 (the check is built with that toolchain; file mtimes stay real inside a bubble, which this check does not depend on); the session model; "
       "eviction choice is not specified: a session may only be reported unknown after the bound was exceeded while it was open or after it was idle for the grace period.",
       "DESIGN.md §3 C08",
-      [R("^TestC08$", 6000, 200000, steps=40)], variant="go126")
+      [R("^TestC08$", 16000, 200000, steps=40)], variant="go126")
 
 check("C20", "the bounded cache never drops an entry without its cleanup", "exploration",
       "rapid state machine over cache.Cache inside a testing/synctest bubble; oracle = ledger of callback invocations vs membership (incarnations), LRU and age rules on the virtual clock",
@@ -148,7 +148,7 @@ check("C20", "the bounded cache never drops an entry without its cleanup", "expl
       "every disappearance must be covered by a successful cleanup of that very value.",
       "Trusted: testing/synctest of go1.26.8; the ledger oracle; overwriting a live key by Set is an update (exempt), as documented for PruneFn.",
       "DESIGN.md §3 C20",
-      [R("^TestC20$", 24000, 1000000, steps=40)], variant="go126")
+      [R("^TestC20$", 96000, 1000000, steps=40)], variant="go126")
 
 check("C17", "fallback-tag referrers converted without loss, repeatably", "exploration",
       "rapid generator of legacy fallback-tag layouts; oracle = expected grouping by actual subject (field-exact) + repeat/restart differential + crash-point enumeration of the conversion through the vfs shim + termination watchdog",
@@ -158,7 +158,7 @@ check("C17", "fallback-tag referrers converted without loss, repeatably", "explo
       "Trusted: the layout generator's expectation (union of listed descriptors whose manifest exists and names the subject, recomputed from the manifests); process-crash model of the vfs shim "
       "(no loss of un-synced pages); pre-existing converted responses are generated accurate only.",
       "DESIGN.md §3 C17",
-      [R("^TestC17$", 600, 8000, shards=(8, 16), timeout=(900, 3300))], variant="vfs")
+      [R("^TestC17$", 2000, 8000, shards=(8, 16), timeout=(900, 3300))], variant="vfs")
 
 check("C14", "read-only stores and disabled APIs change nothing", "exploration",
       "rapid generator of pre-built roots (healthy/legacy/corrupt) x switch combinations x request mixes; oracle = byte/mtime-exact snapshot of the root and its parent + status class per switch + read sweep",
@@ -168,7 +168,7 @@ check("C14", "read-only stores and disabled APIs change nothing", "exploration",
       "Trusted: os.Stat mtimes with nanosecond resolution on the scratch file system; read expectations only for healthy and adoptable roots (open finding C14/ro-legacy-regeneration; corrupt "
       "roots answer depending on the store's 1 s re-check window).",
       "DESIGN.md §3 C14",
-      [R("^TestC14$", 1600, 50000)])
+      [R("^TestC14$", 4800, 50000)])
 
 check("C05", "GC never removes retained or recent content", "exploration",
       "rapid state machine building object graphs with aliasing/nesting/referrers + ageing + collections at any step under every policy; oracle = must-keep closure computed on the model from the statement, pull walk of every tag",
@@ -179,7 +179,7 @@ check("C05", "GC never removes retained or recent content", "exploration",
       "Trusted: the closure in c05_test.go (two documented weakenings from Appendix B of DESIGN.md; root status of child manifests is not asserted while finding C05/orphaned-child is open - counted "
       "in evidence); ageing through the add-only hook VerifAgeBlobs (Chtimes / in-memory metadata).",
       "DESIGN.md §3 C05",
-      [R("^TestC05$", 4000, 120000, steps=35), R("^TestC05Concurrent$", 800, 20000, shards=(4, 16))])
+      [R("^TestC05$", 12000, 120000, steps=35), R("^TestC05Concurrent$", 1600, 20000, shards=(4, 16))])
 
 check("C06", "collection removes exactly the garbage, converges, is not starved", "exploration",
       "E2 object graphs + multi-repository mixes (ghost/empty/removed/corrupt) aged beyond grace; oracle = reachability over the post-pass index (no garbage, no dangling entry), policy rules where unambiguous, second pass is a no-op, per healthy repository",
@@ -190,7 +190,7 @@ check("C06", "collection removes exactly the garbage, converges, is not starved"
       "Trusted: reachability computed by the harness over blobs read back through the API and the index obtained through the add-only hook VerifIndexJSON; ambiguous policy combinations (Untagged off + "
       "ReferrersDangling on for never-existing subjects) and empty responses are not asserted.",
       "DESIGN.md §3 C06",
-      [R("^TestC06$", 3000, 100000, steps=30)])
+      [R("^TestC06$", 6000, 100000, steps=30)])
 
 check("C15", "any request gets a well-formed answer", "exploration",
       "grammar-based request generator in rapid sequences over prepared states + the same generator under Go's native coverage-guided fuzzer (thorough); oracle = no panic, no 5xx on healthy storage, OCI error schema + code table + condition-specific codes, independent router",
@@ -199,7 +199,7 @@ check("C15", "any request gets a well-formed answer", "exploration",
       "handler panic is a violation (in-process transport), every 4xx/5xx body must be an OCI error document with registered codes, and an independently written router decides what must be a 404.",
       "Trusted: the independent router/grammar in c15_test.go; the 416 text/plain answer of net/http.ServeContent is exempt from the error-document rule; 5xx is tolerated only for repositories the generator corrupted.",
       "DESIGN.md §3 C15",
-      [R("^TestC15$", 8000, 400000), R("^FuzzC15$", 0, 0, fuzz=600, tiers=("thorough",))])
+      [R("^TestC15$", 24000, 400000), R("^FuzzC15$", 0, 0, fuzz=600, tiers=("thorough",))])
 
 check("C09", "a crash at any filesystem step loses nothing acknowledged and tears nothing", "fault_enumeration",
       "rapid generator of request histories x enumeration of crash points (every mutating file-system call of the fault-free run, modes before/after/torn-write) through the vfs shim; oracle = layout validator + acknowledged-prefix model + all-or-nothing on the interrupted request",
@@ -210,7 +210,7 @@ check("C09", "a crash at any filesystem step loses nothing acknowledged and tear
       "Trusted: the source rewrite that routes os.* calls of internal/store through the shim (checked for completeness at build time); process-crash model only (no loss of un-synced pages, as the property states); "
       "crash point k is 'the k-th mutating call of this run' (session ids and temp names are random); referrers membership is outside the all-or-nothing comparison while finding C09/torn-referrers-update is open.",
       "DESIGN.md §3 C09",
-      [R("^TestC09$", 64, 2400, timeout=(1200, 3300))], variant="vfs")
+      [R("^TestC09$", 128, 2400, timeout=(1200, 3300))], variant="vfs")
 
 check("C11", "concurrent requests never lose or tear updates", "exploration",
       "rapid generator of small concurrent programs run on real goroutines (16 cores); oracle A = quiescent invariants over the recorded history, oracle B = porcupine linearizability check against the sequential tag/manifest/referrers model",
@@ -223,7 +223,7 @@ check("C11", "concurrent requests never lose or tear updates", "exploration",
       "established. A second 202 for a delete that raced past the same existence check is accepted; while finding C11/artifact-put-not-atomic is open an artifact push is modelled as two atomic steps, "
       "and while C11/session-patch-not-atomic is open the harness admits one PATCH per session at a time.",
       "DESIGN.md §3 C11",
-      [R("^TestC11$", 2400, 60000, shards=(8, 16)), R("^TestC11Upload$", 4000, 80000, shards=(8, 16))])
+      [R("^TestC11$", 8000, 60000, shards=(8, 16)), R("^TestC11Upload$", 12000, 80000, shards=(8, 16))])
 
 check("C13", "concurrent use of one server is free of data races", "exploration",
       "rapid generator of concurrent programs with background ticker/timers on a -race build; oracle = Go race detector (reports parsed into signatures by the driver)",
@@ -232,7 +232,7 @@ check("C13", "concurrent use of one server is free of data races", "exploration"
       "Any report of the detector is a violation; its signature is the unordered pair of top olareg frames with access kinds.",
       "Trusted: the Go race detector (reports only races on executed, concurrently scheduled accesses); this is fuzzing of schedules, not a proof of race freedom.",
       "DESIGN.md §3 C13",
-      [R("^TestC13$", 2400, 60000, shards=(8, 16), timeout=(900, 3300))], variant="race")
+      [R("^TestC13$", 6000, 60000, shards=(8, 16), timeout=(900, 3300))], variant="race")
 
 check("C12", "no schedule can hang the registry", "exploration",
       "rapid generator of concurrent programs on a vsync-instrumented build with injected delays after lock acquisitions; oracle = wait-for-graph cycle / stall monitor, cancellation and Close/Shutdown bounds",
